@@ -19,19 +19,20 @@
 (* cfg.raise[f] = set of (global, 1-based) document indices at which       *)
 (* callback f raises when invoked.                                         *)
 (*                                                                         *)
-(* DeliverAll = FALSE is the code as found: under the propagate policy     *)
+(* deliverAll = FALSE is the code as found: under the propagate policy     *)
 (* delivery of a document stops at the first raising callback.             *)
-(* DeliverAll = TRUE is a repaired registry that still hands the document  *)
+(* deliverAll = TRUE is a repaired registry that still hands the document  *)
 (* to every callback and re-raises the first exception afterwards (see     *)
 (* KF_C19_1 below / notes/C19.md).                                         *)
 (***************************************************************************)
 EXTENDS Naturals, Sequences, FiniteSets, TLC, Json
 
-CONSTANTS NCb,          \* number of callbacks in the exhaustive configs
+CONSTANTS Dom,          \* which scenario domain (see Scenarios): "cfg" = the next three constants, or a named union
+          NCb,          \* number of callbacks
           Names,        \* subscription names explored, subset of {"all","start","descriptor","event","stop"}
           PlanIds,      \* which of the plans below are explored
-          MaxRaise,     \* callbacks raise at <= MaxRaise document indices each (exhaustive configs)
-          DeliverAll    \* BOOLEAN, see above
+          MaxRaise,     \* callbacks raise at <= MaxRaise document indices each
+          DeliverAlls   \* subset of BOOLEAN: registry behaviours explored, see above
 
 Matches(name, kind) == name = "all" \/ name = kind
 
@@ -57,7 +58,7 @@ NominalDocs(cmds) == Nominal(cmds, 1, FALSE, FALSE)
 
 VARIABLES
   cfg,        \* [names, raise, ignore, catch, cmds]  the scenario (constant along a behaviour)
-  deliverAll, \* which registry behaviour this behaviour follows (= DeliverAll in the exhaustive configs)
+  deliverAll, \* which registry behaviour this behaviour follows
   phase,      \* "plan" | "closing" (the plan is dead, the engine cleans up) | "done"
   pc,         \* index of the next plan message to fetch
   cur,        \* message whose command is still emitting (0 = none)
@@ -81,18 +82,15 @@ E(op, idx, kind, status, calls, msg, who, how) ==
 Log(es) == /\ out' = es /\ hist' = hist \o es
 
 ----------------------------------------------------------------------------
-\* scenario domain of the exhaustive configs
+\* scenario domains.  Per callback: a subscription name and the set of document indices it raises at; a callback only
+\* ever sees documents of its kind, so raising indices elsewhere would be the same scenario as not raising there.
 RaiseSets(n) == {S \in SUBSET (1..n) : Cardinality(S) <= MaxRaise}
-\* a callback only ever sees documents of its kind: raising indices elsewhere are the same scenario as not raising
 Useful(name, S, nom) == \A i \in S : \/ (i <= Len(nom) /\ Matches(name, nom[i]))
                                      \/ (i >= 2 /\ Matches(name, "stop"))      \* engine-made closing stop can come at any index >= 2
-ScenariosOf(cmds) ==
-    LET nom == NominalDocs(cmds)
-    IN {c \in [names : [1..NCb -> Names], raise : [1..NCb -> RaiseSets(Len(nom) + 1)], ignore : BOOLEAN, catch : BOOLEAN,
-                cmds : {cmds}] :
-            /\ \A f \in 1..NCb : Useful(c.names[f], c.raise[f], nom)
-            /\ c.ignore => ~c.catch}          \* with exceptions ignored the plan never sees one: catch is irrelevant
-Scenarios == UNION {ScenariosOf(Cmds(p)) : p \in PlanIds}
+CbOptions(names, nom) == {o \in names \X RaiseSets(Len(nom) + 1) : Useful(o[1], o[2], nom)}
+AllNames == {"all", "start", "descriptor", "event", "stop"}
+\* with exceptions ignored the plan never sees one: catch is irrelevant there
+Policies == {<<TRUE, FALSE>>, <<FALSE, FALSE>>, <<FALSE, TRUE>>}
 
 InitWith(c, da) ==
     /\ cfg = c
@@ -105,7 +103,23 @@ InitWith(c, da) ==
     /\ result = [how |-> "", who |-> 0]
     /\ out = <<>> /\ hist = <<>>
 
-Init == \E c \in Scenarios : InitWith(c, DeliverAll)
+\* n callbacks with names out of `names`, every plan of ps, every useful raise script, every policy
+InitPlans(n, names, ps) ==
+    \E p \in ps :
+        LET cmds == Cmds(p)
+            opts == CbOptions(names, NominalDocs(cmds))
+        IN \E a \in [1..n -> opts], pol \in Policies, da \in DeliverAlls :
+              InitWith([names |-> [f \in 1..n |-> a[f][1]], raise |-> [f \in 1..n |-> a[f][2]],
+                        ignore |-> pol[1], catch |-> pol[2], cmds |-> cmds], da)
+
+Init ==
+    CASE Dom = "cfg" -> InitPlans(NCb, Names, PlanIds)
+      \* quick tier: <= 4 documents with the names that differ in behaviour, the 5-document plans with fewer names
+      [] Dom = "exh_quick" -> InitPlans(3, {"all", "event", "stop"}, {1, 2}) \/ InitPlans(3, {"all", "event"}, {3, 4, 5})
+      [] Dom = "replay_quick" -> InitPlans(3, {"all", "stop"}, {1}) \/ InitPlans(2, {"all", "event", "stop"}, {2, 5})
+      [] Dom = "exh_thorough" -> InitPlans(3, AllNames, {1, 2, 3, 4, 5})
+      [] Dom = "replay_thorough" -> InitPlans(3, AllNames, {1, 2, 4}) \/ InitPlans(2, AllNames, {3, 5, 6})
+
 
 ----------------------------------------------------------------------------
 \* CallbackRegistry.process(kind, doc #idx): who is invoked, in which order, and whose exception comes out
@@ -133,7 +147,7 @@ NextEmitting(i) == IF i > Len(cfg.cmds) \/ cfg.cmds[i] \notin {"create", "read"}
 \* the plan either lets it go (the call will raise it, exit_status 'fail') or catches it and returns.
 Emit ==
     /\ phase = "plan"
-    /\ pending # <<>> \/ NextEmitting(pc) <= Len(cfg.cmds)
+    /\ IF pending # <<>> THEN TRUE ELSE NextEmitting(pc) <= Len(cfg.cmds)
     /\ LET fresh == pending = <<>>
            m == IF fresh THEN NextEmitting(pc) ELSE cur
            c == cfg.cmds[m]
@@ -173,8 +187,7 @@ Emit ==
 \* of that emit is only logged.  When the plan's own close_run already composed the stop (it raised while being
 \* delivered) event_model refuses to compose a second one: nothing more is emitted.  Then the call ends.
 Finish ==
-    /\ \/ phase = "closing"
-       \/ phase = "plan" /\ pending = <<>> /\ NextEmitting(pc) > Len(cfg.cmds)
+    /\ IF phase = "plan" THEN pending = <<>> /\ NextEmitting(pc) > Len(cfg.cmds) ELSE phase = "closing"
     /\ LET res == IF phase = "plan" THEN [how |-> "ret", who |-> 0] ELSE result
            idx == Len(emitted) + 1
            st == IF res.how = "raise" THEN "fail" ELSE "success"
@@ -254,10 +267,8 @@ ClosedForAll == \A r \in 1..run : \A f \in Cbs : Matches(cfg.names[f], "stop") =
 \* later-subscribed callbacks never get a stop for that run (the engine's attempt to close the run as failed dies in
 \* event_model "Already composed a RunStop", or its own emit is aborted again, and is only logged).
 KF_C19_1 == ~deliverAll /\ ~cfg.ignore /\ \E i \in Docs : emitted[i].kind = "stop" /\ RaisedOn(i) # {}
-C19_RunClosedForAll_Strict == phase = "done" => ClosedForAll
+\* (KF_C19_1 is false in every behaviour of the repaired registry: there the invariant is the strict one)
 C19_RunClosedForAll == phase = "done" => (ClosedForAll \/ KF_C19_1)
-\* the finding is reachable in the as-found model (listed as an INVARIANT in the *_kf.cfg, expected to be violated)
-KF_C19_1_Unreachable == ~(phase = "done" /\ KF_C19_1 /\ ~ClosedForAll)
 
 TypeOK == /\ phase \in {"plan", "closing", "done"}
           /\ DOMAIN recv = Cbs
